@@ -1,5 +1,5 @@
 #!/usr/bin/env python3
-"""Rewrites DESIGN.md sections 10.6-10.8 (benign corpus, round-2 seeded changes, anchors) from /verif/seeded/*/meta.json and the notes below."""
+"""Rewrites DESIGN.md sections 10.6-10.9 (benign corpus, round-2 seeded changes, anchors) from /verif/seeded/*/meta.json and the notes below."""
 import json, glob, re
 
 def title(sid):
@@ -54,6 +54,14 @@ added.update({
  "C20-7": "C20.6 no message is used as a format string (new)",
 })
 
+added.update({
+ "C03-8": "C03.11 a result that may be the argument itself is not read after the argument is rewritten (new)",
+ "C05-9": "C05.6 a pushed-back sender/receiver keeps the name of the one that was popped (push-back rule extended)",
+ "C13-8": "C13.8 evaluated numbers read-only: ownership now follows the one-element array of append into the slice (analysis made more precise)",
+ "C16-9": "C16.9 per-statement state of the checker is assigned before it is read (new, must-assign / reads-unassigned summaries)",
+ "C19-9": "C19.10 a loop over sibling nodes is left only with an answer (new)",
+})
+
 def table(rnd):
     rows = []
     own1 = tot = ownNow = any1 = 0
@@ -74,6 +82,10 @@ def table(rnd):
     return rows, own1, any1, tot, ownNow
 
 rows3, own3, any3, tot3, ownNow3 = table(3)
+rows4, own4, any4, tot4, ownNow4 = table(4)
+nSeeded = len(glob.glob('/verif/seeded/C*'))
+nOwnAll = sum(1 for d in glob.glob('/verif/seeded/C*') if json.load(open(d + '/meta.json')).get('own_property_check_fires'))
+nBenign = len(glob.glob('/verif/benign/*.diff'))
 
 rows = []
 own1 = tot = ownNow = 0
@@ -175,6 +187,25 @@ rule's stated reason; both seeded changes now have a rule of their own (C05.9 an
 rewrites it is not used afterwards; C19.7 a resolution is recorded on every path after the lookup hit). After the fixes
 **all 139 patches of the corpus are silent** and 138 of the 140 seeded changes are reported by their own property's check.
 
+**Fourth benign round (40 general refactorings, not aimed at any rule).** Ten more sub-agents were given one area of
+the code base each (three for the interpreter, the balance prefetch and the facade, two for the checker, hover, parser,
+language server, CLI) and asked for medium-sized structural changes of their own choice; kept as `benign/r5-<area>-<n>.diff`.
+First run: **10 of 40 raised a false alarm** (down from 23/40, 22/48, 18/48 in the earlier rounds). Fixed structurally:
+the *reconciler* is now a role (returns postings, works on both pending lists, builds the postings itself or through a
+helper of its package; the outermost such function) and every rule about it ranges over the reconciler, the helpers it
+hands the pending lists to, and the helpers that build or merge postings for it - a parameter of such a helper stands for
+what every call in the module passes (`argSites`; a function used as a value has unknown callers and is not resolved);
+the statement-prefetch role reaches the prefetch traversal through per-statement helpers; a builtin may be dispatched by
+selecting its implementation into a function variable under the name comparison; the nil answer of the type-inference
+function is followed through a loop that replaces recursion; values read from the invariant-carrying symbol table keep
+their facts through a helper parameter; an explicit `default: continue` arm of a switch over a closed sum is the no-match
+edge; the save/restore idiom has a second recognised form (an *enter* helper returning a snapshot struct taken before its
+own writes, an *exit* helper storing the snapshot back, and every scope that is entered left on every path to a return);
+the origin-before-declaration rule accepts a per-declaration helper; the language server's lookup helper may be keyed by
+a field of its parameter and a handler may work on a local copy of part of the document found; a context range may be
+built by a helper that is handed the start and the stop token. After the fixes **all {nBenign} patches of the corpus are
+silent**.
+
 What still recognises code by name (a rename there gives `undecided`, exit 1 - a false alarm I could not remove without
 giving up the rule): the struct types `programState`, `CheckResult`, `State` themselves (their private fields fall
 back to a type/role match, see `fieldRoles`); exported API names (`RunProgram`, `Parse`, `CheckSource`, `GetErrorsCount`, `MinBigInt`,
@@ -231,6 +262,21 @@ Not reported by its own property's check: **C06-6** (the leftover-unit loop skip
 units go to the earliest clauses in order" is the loop-shape rule C06.4 that was dropped as brittle in 10.3; I found no
 formulation that stays silent on the refactorings of the corpus (`r3-allot-*` rewrite that loop three different ways).
 Still not reported by C19: C19-4 (see 10.7).
+
+### 10.9 Seeded changes, round 4 (two for each of ten properties, after the rules of rounds 1-3)
+
+Ten more fresh sub-agents (C01, C03, C05, C07, C09, C12, C13, C16, C17, C19 - same isolation, told what the earlier rounds
+had produced) delivered two changes each; all 20 were confirmed (`scripts/triage.sh <Cxx> <i> w4`) and kept as
+`/verif/seeded/Cxx-8..9`. With the checks as they were: **""" + f"{own4} of {tot4}" + """ reported by their own property's check**,
+""" + f"{any4}" + """ by at least one. After the additions (`rules/round4.go` and extensions of existing rules, each run against the
+whole benign corpus before it was kept): **""" + f"{ownNow4} of {tot4}" + """**.
+
+| id | change | reported at first triage by | reported now by | rule added or shared for the own property |
+|---|---|---|---|---|
+""" + "\n".join(rows4) + """
+
+Over all four rounds: **""" + f"{nOwnAll} of {nSeeded}" + """ seeded changes are reported by the check of the property they break**
+(the two exceptions are C06-6 and C19-4, above), and all """ + f"{nBenign}" + """ behaviour-preserving patches are silent.
 """
 s = open('/verif/DESIGN.md').read()
 i = s.find('### 10.6')
